@@ -3,7 +3,9 @@ module verif/harness
 go 1.26
 
 require (
+	github.com/andybalholm/brotli v1.1.1
 	github.com/gorilla/websocket v1.5.3
+	github.com/klauspost/compress v1.18.0
 	github.com/quic-go/quic-go v0.50.1
 	github.com/zishang520/engine.io-go-parser v1.3.2
 	github.com/zishang520/engine.io/v2 v2.0.0
@@ -11,9 +13,7 @@ require (
 )
 
 require (
-	github.com/andybalholm/brotli v1.1.1 // indirect
 	github.com/gookit/color v1.5.4 // indirect
-	github.com/klauspost/compress v1.18.0 // indirect
 	github.com/quic-go/qpack v0.5.1 // indirect
 	github.com/vmihailenco/msgpack/v5 v5.4.1 // indirect
 	github.com/vmihailenco/tagparser/v2 v2.0.0 // indirect
